@@ -423,6 +423,7 @@ def repeat(x, repeats, /, *, axis=0):
     if axis is None:
         x = flatten(x)
         axis = 0
+    axis = validate_axis(axis, x.ndim)
 
     shape = x.shape[:axis] + (x.shape[axis] * repeats,) + x.shape[axis + 1 :]
     chunks = normalize_chunks(x.chunksize, shape=shape, dtype=x.dtype)
